@@ -5,6 +5,8 @@
 #              self-test of the rules that decide this property: every seeded change kept under seeded/<property>
 #              is applied virtually (overlay, nothing written to /repo) and must be reported. The self-test results
 #              are merged into the evidence file; a self-test mismatch means the CHECKER regressed (exit 2).
+#              (c) the negative self-test: every behaviour-preserving refactoring under refactors/ that touches an
+#              analysed package is applied virtually and the check must stay silent (negtest.sh).
 set -u
 cd "$(dirname "$0")"
 export GOFLAGS=-mod=mod GOPROXY=off GOSUMDB=off GOTOOLCHAIN=local GOWORK=off
@@ -32,15 +34,21 @@ fi
 # (b) mutation self-test
 st=$(./selftest.sh "$P" 2>&1); strc=$?
 echo "$st"
-python3 - "$P" "$sum386" "$strc" <<PY
+# (c) negative self-test
+nt=$(./negtest.sh "$P" 2>&1); ntrc=$?
+echo "$nt" | grep '^NEGTEST'
+python3 - "$P" "$sum386" "$strc" "$ntrc" <<PY
 import json,sys
-p,sum386,strc=sys.argv[1],sys.argv[2],int(sys.argv[3])
+p,sum386,strc,ntrc=sys.argv[1],sys.argv[2],int(sys.argv[3]),int(sys.argv[4])
 path=f"evidence/{p}.json"
 e=json.load(open(path))
 lines=[l for l in """$st""".splitlines() if l.startswith("SELFTEST")]
 e["coverage"]["goarch_386"]=sum386
 e["coverage"]["selftest"]={"what":"each seeded change under seeded/%s applied as an overlay (virtual tree) and analysed by this property's rules; expectation in seeded/EXPECT"%p,"results":lines,"as_expected":strc==0}
+nlines=[l for l in """$nt""".splitlines() if l.startswith("NEGTEST")]
+e["coverage"]["negative_selftest"]={"what":"behaviour-preserving refactorings under refactors/ touching the analysed packages, applied as overlays; the check must stay silent (exceptions in refactors/EXPECT)","results":nlines,"as_expected":ntrc==0}
 json.dump(e,open(path,"w"),indent=1)
 PY
+if [ $ntrc -ne 0 ]; then echo "checker negative self-test mismatch for $P (the rules raise an alarm on a behaviour-preserving refactoring)"; exit 2; fi
 if [ $strc -ne 0 ]; then echo "checker self-test mismatch for $P (the rules no longer report a seeded change they used to report)"; exit 2; fi
 exit 0
